@@ -16,6 +16,53 @@ EXPLANATION = (
 SCHED = "mimium_scheduler"
 
 
+# ---- anchors by role (private names of the scheduler crate are free to change) -------------------------------------
+def _heap_call(c, names):
+    return "BinaryHeap" in c and c.split("::")[-1] in names
+
+
+def due_poppers(sc):
+    """functions that take a task off the pending queue (they call BinaryHeap::pop)"""
+    return {f.path for f in sc.fns if f.kind != "promoted" and "::test" not in f.path and any(_heap_call(callee(t) or "", ("pop",)) for _, t in f.calls())}
+
+
+def clock_setters(sc):
+    """methods `fn(&mut self, t)` whose whole effect is to store their argument in a field of self"""
+    out = set()
+    for f in sc.fns:
+        if f.kind != "assoc" or f.d.get("argc") != 2 or "::test" in f.path:
+            continue
+        if any((callee(t) or "").split("::")[-1] not in ("lock", "unwrap", "expect", "deref", "deref_mut", "borrow_mut", "write") for _, t in f.calls()):
+            continue  # taking the lock that guards the field is part of storing it
+        stores = [st for _, st in f.all_stmts() if st[KIND] == "a" and st[4][1] and st[4][0] != 0 and any(x for x in place_fields(st[4]))]
+        if len(stores) == 1 and stores[0][5][0] == "use" and stores[0][5][1][0] in ("cp", "mv"):
+            di = DefIndex(f)
+            r = di.resolve(stores[0][5][1])
+            if r == ("arg", 2) or (stores[0][5][1][1][0] == 2):
+                out.add(f.path)
+    return out
+
+
+def sample_workers(sc):
+    """the per-sample routines of the scheduler: implementations of a trait method that is given the sample time and
+    (transitively, <= 2 calls) pops the pending queue"""
+    pops = due_poppers(sc)
+    out = []
+    for f in sc.fns:
+        if f.kind != "assoc" or not f.d.get("trait") or "::test" in f.path:
+            continue
+        near = {callee(t) or "" for _, t in f.calls()}
+        near2 = set(near)
+        for c in near:
+            g = next((h for h in sc.fns if h.path == c), None)
+            if g is not None:
+                near2 |= {callee(t) or "" for _, t in g.calls()}
+        if f.path in pops or near2 & pops:
+            if any("Time" in ty for ty in f.d.get("locals", [])[: f.d.get("argc", 0) + 1]):
+                out.append(f)
+    return out
+
+
 def rule_queue_types(ck, facts):
     R = "C11.queue"
     ck.rule(R, "both pending-task containers are BinaryHeap<Reverse<Task>> over the same Task type")
@@ -73,10 +120,10 @@ def rule_task_order(ck, facts):
             ck.bad(R, "partial_cmp|delegates", "%s does not delegate to Task::cmp" % f.short, f.where())
 
 
-def _time_exprs(facts, f):
+def _time_exprs(facts, f, own=False):
     """symbolic expressions that become Task.when / Time(..) in f (and its closures)"""
     out = []
-    for g in facts.family(SCHED, f.root if f.root != f.path else f.path):
+    for g in ([f] if own else facts.family(SCHED, f.root if f.root != f.path else f.path)):
         sx = SymEx(g, max_paths=64, facts=facts)
         try:
             paths = sx.run(0)
@@ -86,9 +133,9 @@ def _time_exprs(facts, f):
             for l, e in p.env.items():
                 pass
             for e in p.events:
-                if e[0] == "call" and (e[1].endswith("Task::new") or e[1].endswith("schedule_at_inner")):
+                if e[0] == "call":
                     for a in e[2]:
-                        if a[0] == "agg" and a[1].endswith("Time::Time"):
+                        if a[0] == "agg" and a[1].endswith("Time::Time") and "FloatToInt" in repr(a[2][0]):
                             out.append((g, a[2][0]))
     return out
 
@@ -111,15 +158,20 @@ def rule_time_conversion(ck, facts):
     R = "C11.time"
     ck.rule(R, "the conversion of the scheduled f64 time to a sample index is the same expression (a bare `as u64` truncation) on the VM path and on the WASM path")
     c = facts.crate(SCHED)
-    vm = [f for f in c.fns if f.short.endswith("SimpleScheduler::schedule_at")]
-    wasm = [f for f in c.fns if "into_wasm_plugin_fn_map" in f.path and f.kind == "closure"]
+    # every function of the scheduler crate that converts an f64 into a `Time` it hands on; the WASM side is the one
+    # written as host closures (the plugin's WASM function map), the VM side the rest
+    conv = [f for f in c.fns if f.kind != "promoted" and "::test" not in f.path and _time_exprs(facts, f, own=True)]
+    wasm = [f for f in conv if f.kind == "closure" and "wasm" in f.path.lower()]
+    vm = [f for f in conv if f not in wasm]
     ck.require(R, bool(vm) and bool(wasm), "anchor|schedule-paths", "schedule_at (VM) / the wasm schedule closure not found")
     if not vm or not wasm:
         return
-    a = {repr(norm_time(e)) for g, e in _time_exprs(facts, vm[0])}
+    a = set()
+    for v in vm:
+        a |= {repr(norm_time(e)) for g, e in _time_exprs(facts, v, own=True)}
     b = set()
     for w in wasm:
-        b |= {repr(norm_time(e)) for g, e in _time_exprs(facts, w)}
+        b |= {repr(norm_time(e)) for g, e in _time_exprs(facts, w, own=True)}
     ck.setcount("vm_time_exprs", len(a))
     ck.setcount("wasm_time_exprs", len(b))
     want = repr(("cast", "FloatToInt", ("src",), "u64"))
@@ -256,18 +308,22 @@ def rule_drain(ck, facts):
     ck.rule(R, "(every sample) in the VM worker's on_sample, the channel that delivers newly scheduled tasks is polled and the current time is stored on every path to a return (no early exit before them); (all due tasks) a loop that pops the pending queue leaves only because the queue is empty or its head is not due: no other condition (a count, a buffer size) ends the drain")
     sc = facts.crate(SCHED)
     # (every sample)
-    workers = [f for f in sc.fns if f.short.endswith("::on_sample") and "scheduler::SchedulerAudioWorker" in f.path]
-    ck.require(R, len(workers) == 1, "anchor|on_sample", "VM scheduler worker on_sample not found")
+    setters = clock_setters(sc)
+    poppers = due_poppers(sc)
+    allw = sample_workers(sc)
+    # the VM worker is the one fed through a channel
+    workers = [f for f in allw if any((callee(t) or "").split("::")[-1] in ("try_recv", "try_iter", "recv_timeout") for _, t in f.calls())]
+    ck.require(R, len(workers) == 1, "anchor|on_sample", "VM scheduler worker (the per-sample routine that polls the task channel) not found")
     for f in workers:
         dom = dominators(f)
         rets = [b for b in range(f.nblocks()) if not f.is_cleanup(b) and f.term(b)[KIND] == "return"]
         polls = [b for b, t in f.calls() if (callee(t) or "").split("::")[-1] in ("try_recv", "try_iter", "recv_timeout")]
-        times = [b for b, t in f.calls() if (callee(t) or "").split("::")[-1] == "set_cur_time"]
+        times = [b for b, t in f.calls() if (callee(t) or "") in setters]
+        tl = {i for i, ty in enumerate(f.d.get("locals", [])) if 1 <= i <= f.d.get("argc", 0) and "Time" in ty}
         for b, st in f.all_stmts():
-            if st[KIND] == "a" and st[4][1]:
-                fl = place_fields(st[4])
-                if fl and fl[-1] and fl[-1].endswith("SchedulerAudioWorker::cur_time"):
-                    times.append(b)
+            # or a direct store of the time argument into a field of self
+            if st[KIND] == "a" and st[4][1] and st[4][0] == 1 and st[5][0] == "use" and st[5][1][0] in ("cp", "mv") and st[5][1][1][0] in tl:
+                times.append(b)
         ck.require(R, bool(polls) and bool(times), "anchor|poll-and-time", "on_sample no longer polls the channel / stores the current time")
         for what, blocks in (("poll", polls), ("time", times)):
             ok = bool(blocks) and all(any(p in dom.get(r, ()) for p in blocks) for r in rets)
@@ -279,7 +335,7 @@ def rule_drain(ck, facts):
         # (order) what dsp of the previous sample scheduled for this sample is still in the channel: it has to be in
         # the queue before the due tasks of this sample are run, and before the time the `in the future` test compares
         # with moves on
-        runs = [b for b, t in f.calls() if (callee(t) or "").split("::")[-1] in ("pop_task", "execute_closure")]
+        runs = [b for b, t in f.calls() if (callee(t) or "") in poppers or (callee(t) or "").split("::")[-1] == "execute_closure"]
         if polls and runs:
             late = [r for r in runs if not any(p in dom.get(r, ()) and p != r for p in polls)]
             if not late:
@@ -290,13 +346,10 @@ def rule_drain(ck, facts):
     # per-sample routine it is set to the sample being served — the routine's time argument itself, no arithmetic
     from ..rules.guards import Terms
     nclk = 0
-    for f in sc.fns:
-        if f.kind == "promoted" or "::test" in f.path or not f.short.endswith("::on_sample"):
-            continue
+    for f in allw:
         T = Terms(f)
         for b, t in f.calls():
-            nm = (callee(t) or "").split("::")[-1]
-            if nm not in ("set_cur_time", "set_current_time") or len(t[5]) < 2:
+            if (callee(t) or "") not in setters or len(t[5]) < 2:
                 continue
             nclk += 1
             term = T.op(t[5][1])
@@ -311,7 +364,7 @@ def rule_drain(ck, facts):
     for f in sc.fns:
         if f.kind == "promoted" or "::test" in f.path:
             continue
-        pops = [b for b, t in f.calls() if (callee(t) or "").split("::")[-1] in ("pop", "pop_task") and ("BinaryHeap" in (callee(t) or "") or "pop_task" in (callee(t) or ""))]
+        pops = [b for b, t in f.calls() if _heap_call(callee(t) or "", ("pop",)) or ((callee(t) or "") in poppers and (callee(t) or "") != f.path)]
         if not pops:
             continue
         di = DefIndex(f)
@@ -337,7 +390,7 @@ def rule_drain(ck, facts):
                     r = di.resolve(cur)
                     if r[0] == "rv" and r[1][5][0] == "disc":
                         src = di.resolve(["cp", [r[1][5][1][0], []]])
-                        if src[0] == "call" and (callee(src[1]) or "").split("::")[-1] in ("peek", "pop", "pop_task", "try_recv", "next"):
+                        if src[0] == "call" and ((callee(src[1]) or "").split("::")[-1] in ("peek", "pop", "try_recv", "next") or (callee(src[1]) or "") in poppers):
                             ok = True
                         break
                     if r[0] == "call":
